@@ -116,7 +116,7 @@ def run(ctx):
              "by TLC) is replayed with %d concrete byte representatives through FileStream.Read(n) for n in %s, "
              "FileStream.ReadAll (plain and with the vector straddling the 4096-byte boundary at every split), "
              "ByteStream.ReadAll and LoadFile().Execute; every valid vector also TILED into a file of more than two read blocks (ConcatLemma checked by TLC), plain and behind a byte-order mark; "
-             "short reads (ZnFileShort): every read delivers any number 1..3 (4) of bytes - TLC checks the refinement under every schedule and emits (file, schedule), a seeded sample of them is replayed through a FIFO "
+             "short reads (ZnFileShort): every read delivers any number 1..3 (thorough 1..4) of bytes of files <= 4 symbols - TLC checks the refinement under every schedule and emits (file, schedule), a seeded sample of them is replayed through a FIFO "
              "whose writer hands out exactly those portions (ReadAll and a Read(4096) loop); loads in flight at the same time (ZnFileTwo: own buffer per load holds, one shared block buffer refuted by TLC): "
              "6 goroutines x 40 rounds decode their own tiled file each while the others decode theirs; big files: vectors of every character width tiled to 64 KiB, 1 MiB, 4 MiB, 8 (16) MiB (+ a marker at the end), as a raw file and as a program whose last statement must run; non-trivial = at least 2 bytes and not pure ASCII" % (nreps, bss),
         vectors=len(vecs), valid_vectors=len(valid), impl_runs=runs, exhaustive=True,
